@@ -23,15 +23,15 @@ structure Quirks where
       counted from the end (`else if`), unlike f_extract_range, buffers and the documentation -/
   strRangeRevNeg : Bool := false
   /-- a zero byte cannot be stored through a buffer element lvalue (shares the char-lvalue code of strings) -/
-  bufStoreZero : Bool := true
+  bufStoreZero : Bool := false
   /-- grammar.y folds `0 + X` / `X + 0` to `X` for real-typed X: the sign of a zero differs (-0.0 vs 0.0) -/
   foldAddZeroReal : Bool := false
   /-- the `x == 0 -> !x`, `if (x != 0) -> if (x)` and `0 + X -> X` rewrites trust the grammar's optimistic static
       type (`mixed + int` is typed `int`, `mixed + real` `real`) although the value may be of another type -/
   optimisticTypes : Bool := true
   /-- `size - i` for a `<i` range bound is computed in int64 and wraps for i near INT64_MIN (the bound lands
-      inside the value instead of far outside) -/
-  revRangeWrap : Bool := true
+      inside the value instead of far outside); repaired: `range_from_end ()` saturates at INT64_MAX -/
+  revRangeWrap : Bool := false
   /-- `#if` expressions are evaluated in 32-bit `int` (lib/lpc/preprocess.c cond_get_exp) although LPC integers
       have 64 bits -/
   ppIf32 : Bool := false
@@ -304,17 +304,21 @@ def sliceArray {α} (l : List α) (frm to : Int) : List α :=
   let t := if to ≥ l.length then (l.length : Int) - 1 else to
   if f > t then [] else (l.drop f.toNat).take (t - f + 1).toNat
 
-/-- f_range (code: 0x10 = `<` on the first bound, 0x01 on the second) -/
-def range (q : Quirks) (old : Bool) (fr tr : Bool) (c i j : Value R) : Res (Value R) :=
-  let sb := fun (a b : Int) => if q.revRangeWrap then wrap (a - b) else a - b
+/-- position of a `<i` bound in a value of `len` elements: operator.c `range_from_end (len, i)` (regenerated from the
+    source as `NV.Gen.C03.rangeFromEnd`: saturates at INT64_MAX instead of overflowing); before the repair
+    (`revRangeWrap`) a plain int64 subtraction that wraps -/
+def revSub (q : Quirks) (a b : Int) : Int := if q.revRangeWrap then wrap (a - b) else NV.Gen.C03.rangeFromEnd a b
+
+/-- f_range (code: 0x10 = `<` on the first bound, 0x01 on the second); `sb` = how a `<` bound becomes a position -/
+def rangeWith (sb : Int → Int → Int) (strRevNeg : Bool) (old : Bool) (fr tr : Bool) (c i j : Value R) : Res (Value R) :=
   match i, j with
   | .int i, .int j =>
     match c with
     | .str s =>
       let len : Int := s.length
-      let to := if tr then (if q.strRangeRevNeg then sb len j else (if old && decide (sb len j < 0) then sb len j + len else sb len j))
+      let to := if tr then (if strRevNeg then sb len j else (if old && decide (sb len j < 0) then sb len j + len else sb len j))
                 else if old && decide (j < 0) then j + len else j
-      let frm := if fr then (if q.strRangeRevNeg then sb len i else (if old && decide (sb len i < 0) then sb len i + len else sb len i))
+      let frm := if fr then (if strRevNeg then sb len i else (if old && decide (sb len i < 0) then sb len i + len else sb len i))
                  else if old && decide (i < 0) then i + len else i
       let frm := if frm < 0 then 0 else frm
       .ok (.str (cut s frm to))
@@ -339,8 +343,7 @@ def range (q : Quirks) (old : Bool) (fr tr : Bool) (c i j : Value R) : Res (Valu
   | _, _ => .err
 
 /-- f_extract_range -/
-def extract (q : Quirks) (old : Bool) (fr : Bool) (c i : Value R) : Res (Value R) :=
-  let sb := fun (a b : Int) => if q.revRangeWrap then wrap (a - b) else a - b
+def extractWith (sb : Int → Int → Int) (old : Bool) (fr : Bool) (c i : Value R) : Res (Value R) :=
   match i with
   | .int i =>
     match c with
@@ -363,6 +366,12 @@ def extract (q : Quirks) (old : Bool) (fr : Bool) (c i : Value R) : Res (Value R
       .ok (.arr (sliceArray l (wrap32 frm) (wrap32 (size - 1))))
     | _ => .err
   | _ => .err
+
+def range (q : Quirks) (old : Bool) (fr tr : Bool) (c i j : Value R) : Res (Value R) :=
+  rangeWith (revSub q) q.strRangeRevNeg old fr tr c i j
+
+def extract (q : Quirks) (old : Bool) (fr : Bool) (c i : Value R) : Res (Value R) :=
+  extractWith (revSub q) old fr c i
 
 /-- push_indexed_lvalue: the element an index lvalue designates (strict bounds, 64-bit comparison) -/
 def lvGet (F : FloatOps R) (rev : Bool) (c i : Value R) : Res (Value R) :=
@@ -388,8 +397,8 @@ def lvGet (F : FloatOps R) (rev : Bool) (c i : Value R) : Res (Value R) :=
     | _ => .err
   | _ => .err
 
-/-- F_ASSIGN / F_VOID_ASSIGN through an index lvalue; T_LVALUE_BYTE: `c = number & 0xff; if (c == 0) error` for
-    strings AND buffers -/
+/-- F_ASSIGN / F_VOID_ASSIGN through an index lvalue; T_LVALUE_BYTE: `c = number & 0xff;
+    if (c == 0 && !lvalue_byte_in_buffer) error` (before the repair, `bufStoreZero`: for strings AND buffers) -/
 def lvSet (F : FloatOps R) (q : Quirks) (rev : Bool) (c i v : Value R) : Res (Value R) :=
   match c with
   | .map m => if rev then .err else .ok (.map (mapInsert (keyEq F) m i v))
